@@ -48,6 +48,21 @@ Theorem C03_point_count_mismatch_fails : forall rel abs A B,
 Proof. exact point_count_mismatch_unequal. Qed.
 Print Assumptions C03_point_count_mismatch_fails.
 
+(* the comparator's retry ladder accepts only what one of its equality checks accepted: a pass of the whole comparison is
+   a pass of mesh_equal on one of the view pairs, to which C03_mesh_equal_sound and C08 (views only relabel) apply *)
+Theorem C03_ladder_pass_sound : forall eq dd dr bs v,
+  fst (ladder eq dd dr bs v) = true ->
+  (let '(a, b) := lv_as_is v in eq a b = true) \/ (let '(a, b) := lv_extended v in eq a b = true) \/
+  (let '(a, b) := lv_sorted_points v in eq a b = true) \/ (let '(a, b) := lv_sorted_cells v in eq a b = true).
+Proof. exact ladder_pass_sound. Qed.
+Print Assumptions C03_ladder_pass_sound.
+
+Theorem C03_ladder_no_reorder : forall eq dd bs v,
+  fst (ladder eq dd true bs v) = true ->
+  (let '(a, b) := lv_as_is v in eq a b = true) \/ (dd = false /\ let '(a, b) := lv_extended v in eq a b = true).
+Proof. exact ladder_no_reorder. Qed.
+Print Assumptions C03_ladder_no_reorder.
+
 (* the suite is false whenever the domain check is false or a compared field failed (C11) *)
 Theorem C03_suite_false_if_domain_false : forall incl excl out src ref,
   suite_bool (compare false incl excl out src ref) = false.
